@@ -26,6 +26,12 @@ Ints   == {Null, I(0 - 1), I(0), I(1), I(2)}
 Floats == {Null} \cup {F(i) : i \in 0..6}
 Strs   == {Null} \cup {S(i) : i \in 0..5}
 Dom(t) == IF t = "i" THEN Ints ELSE IF t = "f" THEN Floats ELSE Strs
+\* per case and column only one of the two zero tokens is used (see Sort.tla): the zero token of
+\* column j in case i is a deterministic function of (i, j), applied to the drawn rows
+ZeroOf(i, j) == 2 + ((i + j) % 2)
+FixZeros(rows, i) ==
+  [r \in 1..Len(rows) |-> [j \in 1..Len(rows[r]) |->
+      IF rows[r][j].k = "f" /\ rows[r][j].v \in {2, 3} THEN F(ZeroOf(i, j)) ELSE rows[r][j]]]
 
 Types == {"i", "f", "s"}
 RandTypes(nk) == [j \in 1..nk |-> RandomElement(Types)]
@@ -35,8 +41,9 @@ RandRows(ty, n) == [i \in 1..n |-> RandRow(ty, i)]
 \* low-cardinality rows (many ties): each key drawn from 2 values of its domain
 TieRow(ty, id, pick) == [j \in 1..(Len(ty) + 1) |-> IF j <= Len(ty) THEN RandomElement(pick[j]) ELSE I(id)]
 
-Case(sec, ty, keys, rows, fetch, np) ==
-  LET s  == SortSeq(rows, keys)
+Case(sec, ci, ty, keys, rows0, fetch, np) ==
+  LET rows == FixZeros(rows0, ci)
+      s  == SortSeq(rows, keys)
       pl == IF Len(keys) = 1 THEN 1 ELSE RandomElement(1..(Len(keys) - 1))
       k  == IF fetch < 1 THEN 1 ELSE fetch
   IN [sec |-> sec, types |-> ty, keys |-> keys, rows |-> rows, sorted |-> s, fetch |-> fetch,
@@ -55,13 +62,13 @@ Small(i) ==
       tie == RandomElement(BOOLEAN)
       pick == [j \in 1..nk |-> {RandomElement(Dom(ty[j])), RandomElement(Dom(ty[j])), Null}]
       rows == IF tie THEN [r \in 1..n |-> TieRow(ty, r, pick)] ELSE RandRows(ty, n)
-  IN Case("S", ty, RandKeys(nk), rows, RandomElement(Fetches(n)), RandomElement(1..4))
+  IN Case("S", i, ty, RandKeys(nk), rows, RandomElement(Fetches(n)), RandomElement(1..4))
 
 Big(i) ==
   LET nk == RandomElement(1..3)
       ty == RandTypes(nk)
       n  == RandomElement(20..40)
-  IN Case("B", ty, RandKeys(nk), RandRows(ty, n), RandomElement({0 - 1, 0 - 1, 1, 5, 17, n + 1}), RandomElement(1..4))
+  IN Case("B", i, ty, RandKeys(nk), RandRows(ty, n), RandomElement({0 - 1, 0 - 1, 1, 5, 17, n + 1}), RandomElement(1..4))
 
 Edge(i) ==
   LET nk == RandomElement(1..3)
@@ -69,7 +76,7 @@ Edge(i) ==
       n  == RandomElement({0, 1, 2, 5})
       v  == [j \in 1..nk |-> RandomElement(Dom(ty[j]))]
       rows == [r \in 1..n |-> [j \in 1..(nk + 1) |-> IF j <= nk THEN v[j] ELSE I(r)]]
-  IN Case("E", ty, RandKeys(nk), rows, RandomElement(Fetches(n)), RandomElement(1..4))
+  IN Case("E", i, ty, RandKeys(nk), rows, RandomElement(Fetches(n)), RandomElement(1..4))
 
 Init ==
   \/ \E i \in 1..NSMALL : c = Small(i)
@@ -80,7 +87,10 @@ Spec == Init /\ [][Next]_vars
 
 Emit == PrintT(<<"CASE", ToJson(c)>>)
 
+OneZero == \A j \in 1..Len(c.keys) : ~(\E r1, r2 \in 1..Len(c.rows) : c.rows[r1][j] = F(2) /\ c.rows[r2][j] = F(3))
+
 Sane ==
+  /\ OneZero
   /\ IsSortOf(c.sorted, c.rows, c.keys)
   /\ IsTopKOf(Prefix(c.sorted, IF c.fetch < 0 THEN Len(c.sorted) ELSE c.fetch), c.rows, c.keys, c.fetch)
   /\ Sorted(c.presorted, SubSeq(c.keys, 1, c.pl)) /\ SameBag(c.presorted, c.rows)
